@@ -16,9 +16,6 @@ def good : Cfg :=
     envNul := 0, envEq := 61, rlNul := 0, deletedSuffix := Spec.deleted, deletedCut := 10,
     nameMinLen := 15, nameTestOnBytes := true, textRaw := true }
 
-/-- the code as found before the two repairs -/
-def asFound : Cfg := { good with nameTestOnBytes := false, textRaw := false }
-
 /-! ### fields / splitOn -/
 
 theorem fields_eq_splitOn (sep : Nat) (s : Bytes) : fields sep s = splitOn sep s := by
